@@ -14,6 +14,7 @@ class Item:
     def __init__(self, sim, name, falsy, log):
         self.sim, self.name, self.falsy, self.log = sim, name, falsy, log
         self.count = 0
+        self.reenter = None  # callable: what this item's teardown does to the container that is disposing it (first time only)
 
     def __len__(self):
         return 0 if self.falsy else 1
@@ -23,6 +24,8 @@ class Item:
         sim.yield_point("item.dispose")
         self.count += 1
         self.log.append((sim.tick(), self.name, getattr(sim.current, "op", None)))
+        if self.reenter is not None and self.count == 1:
+            self.reenter()
         sim.yield_point("item.dispose.end")
 
     def __repr__(self):
@@ -149,6 +152,8 @@ class MRefCount:
                 self.live[op[1]] = "live"
                 self.count += 1
             return None, frozenset()
+        if n == "rel" and len(op) > 2:
+            return "no-handle", frozenset()  # (harness) the releasing thread had no handle yet: no call was made
         if n == "rel":
             st = self.live.get(op[1])
             if st == "live":
@@ -214,8 +219,9 @@ def do_real(kind, obj, op, items, deps):
         return None
     if n == "rel":
         d = deps.get(op[1])
-        if d is not None:
-            d.dispose()
+        if d is None:
+            return "no-handle"  # the thread that asked for this dependent has not got it back yet: nothing to call
+        d.dispose()
         return None
     raise ValueError(op)
 
@@ -254,6 +260,13 @@ def gen(rng, kinds, threads_choices=(1, 2, 2, 3)):
                 else:
                     ops.append(["is_disposed"])
         scripts.append(ops)
+    if kind == "refcount" and dep and len(scripts) > 1 and rng.random() < 0.6:
+        # a dependent handed out on one thread is (also) released by another one: the same dependent disposed concurrently
+        for _ in range(rng.choice([1, 1, 2])):
+            k = rng.randrange(dep)
+            owner = next(i for i, ops in enumerate(scripts) if ["get", k] in ops)
+            other = rng.choice([i for i in range(len(scripts)) if i != owner])
+            scripts[other].insert(rng.randrange(len(scripts[other]) + 1), ["rel", k])
     # an item may be handed to a container only once per history (re-adding a disposed item is outside the statement)
     seen = set()
     for ops in scripts:
@@ -263,6 +276,13 @@ def gen(rng, kinds, threads_choices=(1, 2, 2, 3)):
                     ops.remove(op)
                 seen.add(op[1])
     scripts = [s for s in scripts if s] or [[["dispose"]]]
+    sc = {"kind": kind, "items": items, "scripts": scripts,
+          "sched": {"seed": rng.getrandbits(32), "k": rng.choice([0, 1, 2, 2, 3, 3]) if len(scripts) > 1 else 0}}
+    if kind in ("composite", "serial", "single", "multiple") and rng.random() < 0.25:
+        used = sorted(set(op[1] for ops in scripts for op in ops if op[0] in ("add", "set")))
+        if used:
+            sc["reenter"] = {rng.choice(used): ["dispose"]}  # this item's teardown disposes the container it was put into
+    return sc
     return {"kind": kind, "items": items, "scripts": scripts,
             "sched": {"seed": rng.getrandbits(32), "k": rng.choice([0, 1, 2, 2, 3, 3]) if len(scripts) > 1 else 0}}
 
@@ -282,6 +302,22 @@ class Work:
         obj = make_real(sc["kind"], sim, self.items, self.log)
         self.obj = obj
         deps = {}
+        def nested_call(nested):
+            # the item's teardown calls back into the container: a call of its own in the history (same thread, inside the
+            # interval of the call that is disposing the item), so that what it disposes is attributed to it
+            outer = sim.current.op
+            rec = {"thread": outer[0] if outer else -1, "op": nested, "id": (outer, "nested"), "inv": sim.tick(), "ret": None, "result": None}
+            self.history.append(rec)
+            sim.current.op = rec["id"]
+            try:
+                rec["result"] = do_real(sc["kind"], obj, nested, self.items, deps)
+            finally:
+                sim.current.op = outer
+                rec["ret"] = sim.tick()
+
+        for name, nested in (sc.get("reenter") or {}).items():
+            if name in self.items:
+                self.items[name].reenter = (lambda nested=nested: nested_call(nested))
         sim.mark()
 
         def worker(ti, ops):
@@ -307,6 +343,15 @@ class Work:
                 sim.spawn(worker(ti, ops), "w%d" % ti, "work")
 
 
+def _dup_release(scripts):
+    seen = {}
+    for ti, ops in enumerate(scripts):
+        for op in ops:
+            if op[0] == "rel":
+                seen.setdefault(op[1], set()).add(ti)
+    return any(len(v) > 1 for v in seen.values())
+
+
 def linearizable(kind, cfg, history, observed):
     """DFS over linearisations consistent with the invoke/return order; observations must match the model."""
     ops = sorted(history, key=lambda r: r["inv"])
@@ -325,7 +370,7 @@ def linearizable(kind, cfg, history, observed):
             m = MODELS[kind](cfg)
             ok = True
             for p in model_ops + [i]:
-                res, disp = m.apply(ops[p]["op"])
+                res, disp = m.apply(ops[p]["op"] + ["no-handle"] if ops[p]["result"] == "no-handle" else ops[p]["op"])
                 if p == i:
                     if res != ops[p]["result"] or disp != observed.get(ops[p]["id"], frozenset()):
                         ok = False
@@ -334,6 +379,40 @@ def linearizable(kind, cfg, history, observed):
         return False
 
     return rec(frozenset(), [])
+
+
+def refcount_invariants(history, log):
+    """RefCountDisposable when one dependent is disposed by two threads at once.  The call that claimed the dependent does
+    the release; a duplicate that arrives meanwhile returns at once, so the release (and with it the disposal of the
+    underlying resource) can land after calls that were invoked later have returned - which no atomic-call model explains,
+    and which the statement allows.  What it promises is checked directly instead: exactly once, only after the primary
+    dispose() and a dispose of every dependent handed out before were invoked, and not forgotten at quiescence."""
+    rel_t = [seq for seq, item, _ in log if item == "underlying"]
+    if len(rel_t) > 1:
+        return "underlying resource disposed %d times" % len(rel_t)
+    gets = {r["op"][1]: r for r in history if r["op"][0] == "get"}
+    rels = {}
+    for r in history:
+        if r["op"][0] == "rel" and r["result"] != "no-handle":
+            rels.setdefault(r["op"][1], []).append(r)
+    prim = [r for r in history if r["op"][0] == "dispose"]
+    if rel_t:
+        t = rel_t[0]
+        by = [opid for seq, item, opid in log if item == "underlying"][0]
+        t_inv = min([r["inv"] for r in history if r["id"] == by] + [t])  # the releasing call decided somewhere after its invocation
+        if not any(r["inv"] < t for r in prim):
+            return "underlying resource disposed before dispose() of the RefCountDisposable was called"
+        for k, g in gets.items():
+            if g["ret"] is not None and g["ret"] < t_inv and not any(r["inv"] < t for r in rels.get(k, [])):
+                return "underlying resource disposed while dependent %s (handed out before) had not been disposed" % k
+    else:
+        settled = prim and all(any(r["inv"] > g["ret"] for r in rels.get(k, [])) for k, g in gets.items() if g["ret"] is not None)
+        if settled and all(r["ret"] is not None for r in history):
+            return "dispose() was called and every dependent was disposed, yet the underlying resource was never disposed"
+    for r in history:
+        if r["op"][0] == "is_disposed" and r["result"] and not (rel_t and rel_t[0] < r["ret"]) and not any(p["inv"] < r["ret"] for p in prim):
+            return "is_disposed reported True before anything was disposed"
+    return None
 
 
 def execute(sc, pid):
@@ -358,7 +437,10 @@ def execute(sc, pid):
     out.probes["kind:" + sc["kind"]] += 1
     if multi:
         out.probes["threads_%d" % len(sc["scripts"])] += 1
-    desc = "kind=%s items(falsy)=%s scripts=%s cps=%s" % (sc["kind"], {k: v for k, v in sc["items"].items() if v}, sc["scripts"], cps)
+    desc = "kind=%s items(falsy)=%s scripts=%s%s cps=%s" % (sc["kind"], {k: v for k, v in sc["items"].items() if v}, sc["scripts"],
+                                                            (" reenter=%s" % sc["reenter"]) if sc.get("reenter") else "", cps)
+    if sc.get("reenter"):
+        out.probes["reentrant_item"] += 1
     if sim.failure:
         out.bad(sim.failure[0], "%s: %s" % (desc, sim.failure[1]))
     elif sim.thread_errors:
@@ -373,7 +455,13 @@ def execute(sc, pid):
         twice = [i for i, c in counts.items() if c > 1]
         if twice:
             out.bad("disposed-twice", "%s: %s disposed %d times (by operations %s)" % (desc, twice[0], counts[twice[0]], [o for _, i, o in work.log if i == twice[0]]))
-        elif not linearizable(sc["kind"], {}, work.history, {k: frozenset(v) for k, v in observed.items()}):
+        elif sc["kind"] == "refcount" and _dup_release(sc["scripts"]):
+            out.probes["dependent_disposed_by_two_threads"] += 1
+            v = refcount_invariants(work.history, work.log)
+            if v:
+                hist = [(r["id"], r["op"], r["inv"], r["ret"], r["result"], sorted(observed.get(r["id"], []))) for r in work.history]
+                out.bad("refcount-rule", "%s: %s; history (id, op, invoke, return, result, disposed): %s" % (desc, v, hist))
+        elif not linearizable(sc["kind"], {"reenter": sc.get("reenter")}, work.history, {k: frozenset(v) for k, v in observed.items()}):
             hist = [(r["id"], r["op"], r["inv"], r["ret"], r["result"], sorted(observed.get(r["id"], []))) for r in work.history]
             out.bad("not-linearizable", "%s: no sequential order of the calls explains (id, op, invoke, return, result, disposed): %s" % (desc, hist))
     if out.viol:
